@@ -615,3 +615,84 @@ func pooledObjectsReset(c *Ctx, rule string, relPrefixes ...string) {
 		}
 	}
 }
+
+// splitPartOf recognises v as the part before (idx 0) or after (idx 1) the separator of src, in either spelling:
+// strings.Split(src, sep)[idx], or src[:i] / src[i+1:] with i = strings.Index(src, sep) / strings.IndexByte(src, sep[0]).
+func splitPartOf(v ssa.Value) (src ssa.Value, sep string, idx int, ok bool) {
+	if ld, isLd := isLoad(v); isLd {
+		if ia, isIA := ld.X.(*ssa.IndexAddr); isIA {
+			if n, isC := ConstInt(ia.Index); isC && (n == 0 || n == 1) {
+				if call, isCall := ia.X.(*ssa.Call); isCall && FuncIs(call.Call.StaticCallee(), "strings", "Split") {
+					if s, isS := ConstString(call.Call.Args[1]); isS {
+						return call.Call.Args[0], s, int(n), true
+					}
+				}
+			}
+		}
+	}
+	sl, isSl := v.(*ssa.Slice)
+	if !isSl {
+		return nil, "", 0, false
+	}
+	indexOf := func(i ssa.Value) (string, bool) {
+		call, isCall := i.(*ssa.Call)
+		if !isCall || len(call.Call.Args) != 2 || call.Call.Args[0] != sl.X {
+			return "", false
+		}
+		switch {
+		case FuncIs(call.Call.StaticCallee(), "strings", "Index"):
+			s, isS := ConstString(call.Call.Args[1])
+			return s, isS && len(s) == 1
+		case FuncIs(call.Call.StaticCallee(), "strings", "IndexByte"), FuncIs(call.Call.StaticCallee(), "strings", "IndexRune"):
+			if k, isC := ConstInt(call.Call.Args[1]); isC && k > 0 && k < 128 {
+				return string(rune(k)), true
+			}
+		}
+		return "", false
+	}
+	if sl.Low == nil && sl.High != nil {
+		if s, isI := indexOf(sl.High); isI {
+			return sl.X, s, 0, true
+		}
+	}
+	if sl.High == nil && sl.Low != nil {
+		if bo, isB := sl.Low.(*ssa.BinOp); isB && bo.Op == token.ADD {
+			if one, isC := ConstInt(bo.Y); isC && one == 1 {
+				if s, isI := indexOf(bo.X); isI {
+					return sl.X, s, 1, true
+				}
+			}
+		}
+	}
+	return nil, "", 0, false
+}
+
+// exactlyTwoParts: the condition says that src consists of exactly two sep-separated parts:
+// len(strings.Split(src, sep)) == 2, or strings.Count(src, sep) == 1.
+func exactlyTwoParts(dc Cond) (src ssa.Value, sep string, ok bool) {
+	b, isB := dc.V.(*ssa.BinOp)
+	if !isB {
+		return nil, "", false
+	}
+	holds := func(k int64) bool {
+		n, isC := ConstInt(b.Y)
+		return isC && n == k && ((b.Op == token.EQL && dc.Pol) || (b.Op == token.NEQ && !dc.Pol))
+	}
+	call, isCall := b.X.(*ssa.Call)
+	if !isCall {
+		return nil, "", false
+	}
+	if bi, isBi := call.Call.Value.(*ssa.Builtin); isBi && bi.Name() == "len" && holds(2) {
+		if sp, isSp := call.Call.Args[0].(*ssa.Call); isSp && FuncIs(sp.Call.StaticCallee(), "strings", "Split") {
+			if s, isS := ConstString(sp.Call.Args[1]); isS {
+				return sp.Call.Args[0], s, true
+			}
+		}
+	}
+	if FuncIs(call.Call.StaticCallee(), "strings", "Count") && holds(1) {
+		if s, isS := ConstString(call.Call.Args[1]); isS && len(s) == 1 {
+			return call.Call.Args[0], s, true
+		}
+	}
+	return nil, "", false
+}
